@@ -316,6 +316,42 @@ def tie_b_request(res, workdir):
     return ok
 
 
+def tie_b_scan(res, workdir):
+    """Tie B for the bit-rate scan: translate GnssUBlox.scan() of ubxlib/server_tty.py to Gallina over PySem.v and compile
+    coq/bridge/BridgeScan.v (generated = model/Scan.v for every backend, state and fuel). Same rules as tie_b_request."""
+    from . import translate, translate_req
+    gen = os.path.join(workdir, 'gens')
+    os.makedirs(gen, exist_ok=True)
+    try:
+        translate_req.emit_scan_v(os.path.join(gen, 'ScanKernels.v'))
+    except translate.TranslateError as e:
+        res.notes['tie_B_scan'] = f'unavailable: {e}'
+        return False
+    except Exception as e:
+        res.notes['tie_B_scan'] = f'unavailable: {e!r}'
+        return False
+    xq = [(gen, 'UbxGen')]
+    rc, out = coqc(os.path.join(gen, 'ScanKernels.v'), gen, extra_q=xq)
+    if rc:
+        res.notes['tie_B_scan'] = 'unavailable: generated ScanKernels.v does not type-check: ' + out[-400:]
+        return False
+    dst = os.path.join(gen, 'BridgeScan.v')
+    shutil.copy(os.path.join(COQ, 'bridge', 'BridgeScan.v'), dst)
+    rc, out = coqc(dst, gen, extra_q=xq)
+    ok = rc == 0
+    res.oblige('Tie B scan: bridge lemma BridgeScan.v (server_tty.scan translated to Gallina = Scan.v model)', ok, out)
+    if ok:
+        bad = [a for a in parse_assumptions(out) if not a.startswith('Closed under')]
+        if bad:
+            raise MachineryFault('bridge lemma depends on axioms: ' + str(bad[:2]))
+        res.notes['tie_B_scan'] = 'scan() regenerated from source and proved equal to the model'
+    else:
+        res.notes['tie_B_scan'] = 'bridge lemma FAILED'
+        res.violation('Tie B: scan() translated from the current source is no longer provably equal to the model',
+                      {'property': res.prop, 'broken': 'coq/bridge/BridgeScan.v', 'coqc_output': out[-2500:]}, 'bridge-scan', False)
+    return ok
+
+
 # ------------------------------------------------------------------ model driver
 def run_driver(lines, timeout=3600):
     """Evaluate command lines with the extracted model; returns list of output lines."""
